@@ -18,12 +18,12 @@ CLAIMS = {
                      'WindowHonoured, PositivePeriod, FinalIrreversible, FinalPrefix, LastFinalQuery, DeletableUntilFinal; every transition (incl. exactly-at / one-tick-around boundary '
                      'instants) is replayed on the real keeper with real block headers. A second family (window) runs periods and block times at a scale of 2^33 ns per tick so that nanosecond-truncating or seconds-rounding '
                      'comparisons differ from the exact one; the order-theoretic core (FinalStays, FinalPrefix, L2Increasing, TimeMonotone) is additionally discharged as an inductive invariant over unbounded integers by Apalache '
-                     '(OutputOracleInd.tla, logs up to 4 outputs).' + E3, note=COMMON_NOTE),
+                     '(OutputOracleInd.tla, logs up to 4 outputs) and, with no bound at all, proved with the TLA+ proof system (OutputOracleProof.tla: tlapm checks 123 obligations - IndInv inductive, IndInv => L2Increasing /\\ TimeMonotone /\\ FinalPrefix, every step keeps final outputs in place and final).' + E3, note=COMMON_NOTE),
     'C10': dict(text='Ledger model over bridge ids {1,2,3} (3 never created): per-bridge gap-free sequences, deposits only to existing bridges, new bridge starts clean, event fields '
                      'parsed from the real emitted event equal the request, token pair = independent derivation and immutable; all transitions replayed on the real keeper.' + E3, note=COMMON_NOTE),
     'C11': dict(text='Contiguous / L2Increasing / TimeMonotone invariants and ProposeRule / DeleteRule action properties hold on the bounded oracle model; every propose/delete with '
                      'indices 0..3 and block numbers 1..3 in every reachable log state is replayed on the real keeper and the stored outputs (root, L2 block, L1 height, L1 time) compared, also through the paginated gRPC queries (OutputProposals with every offset/limit/reverse, LastFinalizedOutput, NextL1Sequence). '
-                     'The log-shape invariants are also proved inductive over unbounded integers by Apalache (OutputOracleInd.tla).' + E3, note=COMMON_NOTE),
+                     'The log-shape invariants are also proved inductive over unbounded integers by Apalache (OutputOracleInd.tla, logs up to 4 outputs) and for logs of any length by a TLAPS proof (OutputOracleProof.tla).' + E3, note=COMMON_NOTE),
     'C18': dict(text='Replicas.tla states determinism as agreement of K replicas applying one log (checked by TLC, and shown to fail for a deliberately non-deterministic Apply in the selftest). '
                      'Histories are behaviours of the other specifications: random paths through the transition graphs TLC emits for the validator-set, plan, oracle, L2 deposit and L1 families '
                      '(multi-removal blocks, plans over several validators, oracle aggregation, genesis round trips); each path runs on 4 (quick) / 8 (thorough) fresh instances, every log position '
